@@ -1,6 +1,7 @@
 package main
 
 import (
+	"os"
 	"fmt"
 	"go/constant"
 	"go/token"
@@ -37,6 +38,7 @@ type sval struct {
 }
 
 type Frame struct {
+	foldObls     map[*Spec]*Obligation
 	x            *Exec
 	fn           *ssa.Function
 	id           int
@@ -858,15 +860,17 @@ func (fr *Frame) run(st *State) {
 		switch t := b.Instrs[len(b.Instrs)-1].(type) {
 		case *ssa.If:
 			cond := fr.val(t.Cond)
+			at := fr.cur // takeEdge replaces fr.cur when the edge is a back edge: both edges start from the state at the branch
 			for k, s := range b.Succs {
 				cnd := cond
 				if k == 1 {
 					cnd = not(cond)
 				}
-				es := fr.cur.clone()
-				es.reach = fr.c().define("reach", "Bool", and(fr.cur.reach, cnd))
+				es := at.clone()
+				es.reach = fr.c().define("reach", "Bool", and(at.reach, cnd))
 				fr.takeEdge(b, s, es, edges)
 			}
+			fr.cur = at
 		case *ssa.Jump:
 			es := fr.cur.clone()
 			fr.takeEdge(b, b.Succs[0], es, edges)
@@ -912,6 +916,29 @@ func (x *Exec) active(cl *Clause) bool {
 	return false
 }
 
+// isStableParam: name is a parameter of the function that no instruction of the loop body assigns
+func (fr *Frame) isStableParam(li *loopInfo, name string) bool {
+	found := false
+	for _, p := range fr.fn.Params {
+		if p.Name() == name {
+			found = true
+		}
+	}
+	if !found {
+		return false
+	}
+	for b := range li.body {
+		for _, in := range b.Instrs {
+			if s, ok := in.(*ssa.Store); ok {
+				if a, ok := s.Addr.(*ssa.Alloc); ok && a.Comment == name {
+					return false
+				}
+			}
+		}
+	}
+	return true
+}
+
 func (fr *Frame) checkInvariant(li *loopInfo, kind, desc string) {
 	if st, ok := fr.loopEntry[li]; ok {
 		fr.curLoopEntry = st
@@ -937,6 +964,7 @@ func (fr *Frame) enterLoop(li *loopInfo) {
 	fr.checkInvariant(li, "inv-entry", "loop invariant holds on entry")
 	// 2. havoc everything the body may modify
 	mods := &modSet{comps: map[string]bool{}}
+	gmods := map[string][]*Spec{} // ghost field component -> base objects of the ghost assignments in the body
 	cells := map[string]types.Type{}
 	for b := range li.body {
 		for _, in := range b.Instrs {
@@ -980,7 +1008,7 @@ func (fr *Frame) enterLoop(li *loopInfo) {
 							if base != nil && base.Op == "sel" {
 								for _, g := range fr.x.e.cf.Ghost {
 									if g.Field == base.Name {
-										mods.comps["F."+g.Type+"."+g.Field] = true
+										gmods["F."+g.Type+"."+g.Field] = append(gmods["F."+g.Type+"."+g.Field], base.Args[0])
 									}
 								}
 							}
@@ -995,6 +1023,24 @@ func (fr *Frame) enterLoop(li *loopInfo) {
 				mods.comps["W"] = true
 			case *ssa.Select, *ssa.Send:
 			}
+		}
+	}
+	// ghost fields assigned in the body only through a parameter that the body never reassigns are havocked
+	// at that one object (store(old, base, fresh)); every other ghost field written in the body entirely.
+	gpoint := map[string]*Spec{}
+	for n, bases := range gmods {
+		pointwise := !mods.comps[n] && !mods.all && os.Getenv("GOVC_NOPOINT") == ""
+		var b0 *Spec
+		for _, bs := range bases {
+			if bs.Op != "ident" || !fr.isStableParam(li, bs.Name) || (b0 != nil && b0.Name != bs.Name) {
+				pointwise = false
+			}
+			b0 = bs
+		}
+		if pointwise && b0 != nil {
+			gpoint[n] = b0
+		} else {
+			mods.comps[n] = true
 		}
 	}
 	old := fr.cur
@@ -1058,6 +1104,15 @@ func (fr *Frame) enterLoop(li *loopInfo) {
 			continue
 		}
 		fr.cur.set(n, c.fresh("hv."+shortName(n), compSorts[n]))
+	}
+	for n, bs := range gpoint {
+		if _, ok := compSorts[n]; !ok {
+			continue
+		}
+		se := fr.specEnvFor(old, fr.entry, fr.loopVars(old), true)
+		base := se.eval(bs).t
+		es := elemOfArraySort(compSorts[n])
+		fr.cur.set(n, c.define("hvp", compSorts[n], app("store", old.get(n), base, c.fresh("hv."+shortName(n), es))))
 	}
 	var cns []string
 	for n := range cells {
